@@ -213,17 +213,20 @@ const (
 	kBalEnough = 22 // fee + amount
 	kNoPK      = 10 // funded by a transfer, no public key stored
 	kUnknown   = 11 // never funded
+	kWrongPK   = 12 // genesis account whose stored public key is the key of kOtherKey
+	kOtherKey  = 13
 )
 
 func c03cfg(mult string) chain.Config {
 	cfg := baseCfg()
 	big := int64(1000 * min)
 	cfg.Accs = []chain.GenAcc{{Key: 0, Balance: 5 * min}, {Key: 1, Balance: 5 * min}, {Key: 2, Balance: big, Abc: 1000}, {Key: 3, Balance: big}, {Key: 4, Balance: big},
-		{Key: 100, Balance: big, Abc: 1000}, {Key: 101, Balance: big}, {Key: kBalLow, Balance: 9999}, {Key: kBalFee, Balance: 10000}, {Key: kBalEnough, Balance: 11000}}
+		{Key: 100, Balance: big, Abc: 1000}, {Key: 101, Balance: big}, {Key: kBalLow, Balance: 9999}, {Key: kBalFee, Balance: 10000}, {Key: kBalEnough, Balance: 11000}, {Key: kWrongPK, Balance: big, PubKeyOf: kOtherKey + 1}}
 	cfg.Owner, cfg.DAOOwner = 2, 2
 	switch mult {
 	case "type3":
-		cfg.FeeMult = &chain.FeeMult{Keys: []string{"send"}, Mults: []int64{3}, Default: 1}
+		// several keyed multipliers; the judged ones are not the first of the list
+		cfg.FeeMult = &chain.FeeMult{Keys: []string{"unjail", "send", "stake_validator"}, Mults: []int64{1, 3, 2}, Default: 1}
 	case "default0":
 		cfg.FeeMult = &chain.FeeMult{Default: 0}
 	}
@@ -270,7 +273,7 @@ func c03cases() []c03case {
 	}
 	// key absent and not available from state
 	for _, m := range c03msgKinds {
-		for _, a := range []string{"unknown", "nopk"} {
+		for _, a := range []string{"unknown", "nopk", "wrongpk"} {
 			for _, src := range []string{"absent", "attached"} {
 				c := base
 				c.Name, c.Msg, c.Acct, c.KeySrc = "A2", m, a, src
@@ -281,7 +284,7 @@ func c03cases() []c03case {
 	// B. post-signing mutations for every message kind and signer kind (own key)
 	for _, m := range c03msgKinds {
 		for _, s := range signers {
-			for _, mut := range []string{"chain-id", "msg", "fee-amount", "fee-denom", "memo", "entropy", "sig-flip", "sig-trunc", "sig-empty"} {
+			for _, mut := range []string{"chain-id", "msg", "fee-amount", "fee-denom", "memo", "memo-space", "entropy", "sig-flip", "sig-trunc", "sig-empty"} {
 				c := base
 				c.Name, c.Msg, c.Signer, c.Mut = "B", m, s.kind, mut
 				cs = append(cs, c)
@@ -350,6 +353,11 @@ func (e *c03env) build(c c03case, view chain.View) c03built {
 	signFn := s.sign
 	variant := c.Variant
 	switch c.Acct {
+	case "wrongpk":
+		// the account at this address stores another party's key; that party signs
+		addr, pkOwn = chain.Addr(kWrongPK), chain.Pub(kOtherKey)
+		signFn = func(v string, sb []byte) ([]byte, crypto.PublicKey) { return sigOf(kOtherKey, sb), chain.Pub(kOtherKey) }
+		variant = "own"
 	case "bal=fee-1", "bal=fee", "bal=fee+amount", "unknown", "nopk":
 		k := map[string]int{"bal=fee-1": kBalLow, "bal=fee": kBalFee, "bal=fee+amount": kBalEnough, "unknown": kUnknown, "nopk": kNoPK}[c.Acct]
 		addr, pkOwn = chain.Addr(k), chain.Pub(k)
@@ -362,8 +370,11 @@ func (e *c03env) build(c c03case, view chain.View) c03built {
 	mult := int64(1)
 	switch c.FeeMult {
 	case "type3":
-		if msg.Type() == "send" {
+		switch msg.Type() {
+		case "send":
 			mult = 3
+		case "stake_validator":
+			mult = 2
 		}
 	case "default0":
 		mult = 0
@@ -441,6 +452,8 @@ func (e *c03env) build(c c03case, view chain.View) c03built {
 		fee = sdk.NewCoins(sdk.NewCoin("abc", sdk.NewInt(feeAmt)))
 	case "memo":
 		memo += "x"
+	case "memo-space":
+		memo = " " + memo + "\n" // white space is content too
 	case "entropy":
 		entropy++
 		e.entropy++
@@ -474,7 +487,7 @@ func (e *c03env) build(c c03case, view chain.View) c03built {
 		pkVerify = pkUsed
 	default:
 		// looked up from state: only genesis ed25519/secp256k1 accounts store a key
-		if accExists && (c.Acct == "" && s.stored || strings.HasPrefix(c.Acct, "bal=")) {
+		if accExists && (c.Acct == "" && s.stored || strings.HasPrefix(c.Acct, "bal=") || c.Acct == "wrongpk") {
 			pkVerify = pkOwn
 		}
 	}
@@ -709,7 +722,7 @@ func C03(tier string) int {
 	run.Set("evaluations", int64(len(all)))
 	run.Set("distinct_nontrivial", int64(classes))
 	run.Set("outcome_classes", stats.m)
-	run.Set("rule", "union of complete sub-products: A message kind(7) x signer account kind(ed25519, secp256k1, 2-key multisig, nested multisig) x signing variant (own / other key same type / other type / foreign, swapped, short, duplicate, extra component / other multisig / single key) x key source (attached / from state); A2 unknown and key-less accounts; B every post-signing mutation (chain id, message field, fee amount, fee denom, memo, entropy, signature bit flip, truncation, empty) x message kind x signer kind; C fee (req-1, req, req+1, none) x fee-multiplier setting (default 1, per-type 3, default 0) x message kind x signer kind; D balance grid; E memo bounds; F replays (after commit: judged; same block: recorded). distinct_nontrivial = distinct outcome classes (accepted / rejected-by-reason) observed")
+	run.Set("rule", "union of complete sub-products: A message kind(7) x signer account kind(ed25519, secp256k1, 2-key multisig, nested multisig) x signing variant (own / other key same type / other type / foreign, swapped, short, duplicate, extra component / other multisig / single key) x key source (attached / from state); A2 unknown and key-less accounts, and an account whose stored key is another party's; B every post-signing mutation (chain id, message field, fee amount, fee denom, memo, memo white space, entropy, signature bit flip, truncation, empty) x message kind x signer kind; C fee (req-1, req, req+1, none) x fee-multiplier setting (default 1; keyed list unjail x1, send x3, stake x2; default 0) x message kind x signer kind; D balance grid; E memo bounds; F replays (after commit: judged; same block: recorded). distinct_nontrivial = distinct outcome classes (accepted / rejected-by-reason) observed")
 	run.Sample(c03case{Name: "A", Msg: "send", Signer: "ed25519", Variant: "other-same-type", KeySrc: "attached", Mut: "none", Fee: "req", Memo: "empty", Replay: "first", FeeMult: "default1"})
 	run.Sample(c03case{Name: "C", Msg: "send", Signer: "multisig", Variant: "own", KeySrc: "attached", Mut: "none", Fee: "req-1", Memo: "empty", Replay: "first", FeeMult: "type3"})
 	run.Assume("signature validity is decided by Tendermint's ed25519/secp256k1 primitives and the positional N-of-N rule; signatures are made and judged over the harness's own rendering of the documented sign bytes (key-sorted JSON of chain id, entropy, fee, memo, message sign bytes), not over the repository's StdSignBytes",
